@@ -326,10 +326,17 @@ PPL::Polyhedron::relation_with(const Congruence& cg) const {
   // For an arbitrary generator point, compute the scalar product with
   // the equality.
   PPL_DIRTY_TEMP_COEFFICIENT(sp_point);
+  PPL_DIRTY_TEMP_COEFFICIENT(modulus);
+  modulus = cg.modulus();
   for (Generator_System::const_iterator gs_i = gen_sys.begin(),
          gs_end = gen_sys.end(); gs_i != gs_end; ++gs_i) {
     if (gs_i->is_point()) {
       Scalar_Products::assign(sp_point, c, *gs_i);
+      // The scalar product is the value of `expr' at the point multiplied
+      // by the divisor of the point: scale expression and modulus likewise.
+      const Coefficient& divisor = gs_i->divisor();
+      expr *= divisor;
+      modulus *= divisor;
       expr -= sp_point;
       break;
     }
@@ -342,7 +349,6 @@ PPL::Polyhedron::relation_with(const Congruence& cg) const {
   // corresponding to the hyperplanes to determine the result.
 
   // Compute the distance from the point to an hyperplane.
-  const Coefficient& modulus = cg.modulus();
   PPL_DIRTY_TEMP_COEFFICIENT(signed_distance);
   signed_distance = sp_point % modulus;
   if (signed_distance == 0) {
@@ -353,35 +359,30 @@ PPL::Polyhedron::relation_with(const Congruence& cg) const {
     // The point is not lying on the hyperplane.
     expr += signed_distance;
   }
-  // Build first halfspace constraint.
+  // The point lies strictly between two adjacent hyperplanes satisfying
+  // the congruence; the polyhedron, being convex, is disjoint from the
+  // congruence if and only if it meets neither of them (merely touching
+  // one of them is enough to intersect).
   const bool positive = (signed_distance > 0);
-  const Constraint first_halfspace = positive ? (expr >= 0) : (expr <= 0);
-
-  const Poly_Con_Relation first_rels = relation_with(first_halfspace);
-  PPL_ASSERT(!first_rels.implies(Poly_Con_Relation::saturates())
-             && !first_rels.implies(Poly_Con_Relation::is_disjoint()));
-  if (first_rels.implies(Poly_Con_Relation::strictly_intersects())) {
+  const Constraint first_hyperplane(expr == 0);
+  if (!relation_with(first_hyperplane)
+      .implies(Poly_Con_Relation::is_disjoint())) {
     return Poly_Con_Relation::strictly_intersects();
   }
 
-  // Build second halfspace.
+  // Build second hyperplane.
   if (positive) {
     expr -= modulus;
   }
   else {
     expr += modulus;
   }
-  const Constraint second_halfspace = positive ? (expr <= 0) : (expr >= 0);
-
-  PPL_ASSERT(first_rels == Poly_Con_Relation::is_included());
-  const Poly_Con_Relation second_rels = relation_with(second_halfspace);
-  PPL_ASSERT(!second_rels.implies(Poly_Con_Relation::saturates())
-             && !second_rels.implies(Poly_Con_Relation::is_disjoint()));
-  if (second_rels.implies(Poly_Con_Relation::strictly_intersects())) {
+  const Constraint second_hyperplane(expr == 0);
+  if (!relation_with(second_hyperplane)
+      .implies(Poly_Con_Relation::is_disjoint())) {
     return Poly_Con_Relation::strictly_intersects();
   }
 
-  PPL_ASSERT(second_rels == Poly_Con_Relation::is_included());
   return Poly_Con_Relation::is_disjoint();
 }
 
